@@ -37,7 +37,16 @@ branch computed from the per-phase strengths and flags the model reports, one-ph
 (K) host histories with stopping conditions that are MET during a solve call on a real Al-Zr PrecipitateModel (density / volume
 fraction / nucleation rate / mean radius / a host-clock condition; or / and), several solve calls after the condition-ended one,
 oracle after EVERY host step including the step that ends a run and after every solve call; steps per call and update indices vs
-the machine KawinV.Coupling.solveCalls (verb c18.stopstep)."""
+the machine KawinV.Coupling.solveCalls (verb c18.stopstep).
+(L) multi-phase Zener hosts: scripted hosts (GenericModel subclass with the real coupling list and the real PrecipitationData
+record) with 1-4 precipitate phases in every order, 0..P of them without precipitates (Ravg = 0, volume fraction 0: not nucleated
+/ dissolved), the others pinning with a total drag below / around / above the largest driving force, phase-specific m and K;
+formula level (computeZenerRadius on every permutation of the phases) and host level (real GrainGrowthModel attached with
+addCouplingModel, 1-3 host steps through updateCoupledModels, every constrainedGrowth call of the inner solve recorded).  Oracle:
+the drag = the sum over the phases WITH precipitates of f^m / (K Ravg) computed by the harness from the host data, the same for
+every phase order, handed unchanged to every constrainedGrowth call of the host step; drag above the largest driving force -> every
+rate 0 and distribution / mean size unchanged over the host step; otherwise rate = g -/+ alpha M gbe z, never reversed or faster.
+Rows vs KawinV.Grain.zenerDrag / zenerSpec (verb c18.zener)."""
 import math, os, sys
 import numpy as np
 import vlib
@@ -45,7 +54,7 @@ from vlib import Result, enc_list, f2b, Toks, close
 
 PROP = 'C18'
 META = {
-    'level_text': 'Lean 4 theorems about (i) definitions REGENERATED on every run from Strength.py by a concolic tracer (mixed, edge and screw contribution formulas, Orowan, line tension) and (ii) hand models of the array logic of Strength.py and GrainGrowth.py: every clipped weak/strong/Orowan contribution is >= 0, the weak/strong sums, the combined precipitate strength, the multi-phase precipitate strength and the total strength are >= 0 (reals, rpow); precipitate strength = Taylor factor x min(weak, strong, Orowan) and 0 when a branch is non-finite (no precipitates); superposition (sum a_i^n)^(1/n) >= every a_j and non-decreasing in every a_i; the traced mixed-dislocation formulas reduce to the traced edge/screw formulas at 90/0 degrees (exact identities for modulus, APB-weak, SFE, interfacial; for the coherency and APB-strong formulas, whose published coefficients are rounded, the reduced form plus bounds on the coefficient ratio); Zener drag: sign in {0, sign g}, |cG| <= |g|, frozen when the drag >= max|g|; third moment = 1 after Normalize, mean size invariant under Normalize; transport with zero nucleation does not increase the number of grains (C07 budget + one-sided ends); one strength row per host step plus the initial row over any number of solve calls; grain-growth clock = host clock after every host step; the coupling list of a host as a state machine (attach = append, clear, host step = one updateCoupledModel call per list entry in list order): for every history of attach / clear / step operations every attached model is updated exactly once per host step since its attachment, at consecutive host indices (attached_updated_every_step), attaching keeps every attached model in place and does not change the update calls any other model receives (attach_mem, attach_prefix, attach_does_not_alter_others), cleared models are not updated, hence a StrengthModel attached at any time has (host steps since its attachment) + 1 rows (attached_history_length); witness: de-duplication by class detaches the first of two models of one class (dedup_detaches_first_of_same_class); histories WITH host.reset() (machine hrun: attach / clear / reset / step, host index rewound by reset, host steps counted over resets): reset keeps the coupling list (reset_keeps_attachments, attached_after_resets), a model attached once and not cleared by the user is updated exactly once at each host step after its attachment over any number of solve calls and resets (one_entry_per_step_over_histories, updates_count_over_histories), hence its strength history has steps + 1 entries (strength_history_over_histories) and the clock of an attached GrainGrowthModel is the sum of the host steps since its attachment (grain_clock_over_histories); witness reset_detaching_loses_updates for a reset that detaches; the grain-growth loaders and reset as operations (load = initial grid, raw distribution, Normalize, then backup; reset = restore backup, clock [0]; solve = any state): reset after anything after a load gives back exactly the loaded state (reset_restores_loaded), a loaded distribution and every later reset state have grain volume 1 (loaded_normalised, reset_normalised); witness backup_before_normalise_loses_volume / backupFirst_reset_restores_raw for a backup taken before Normalize. Round 5: the multi-phase row of precStrength has ONE exponent for the power sum and the root in each branch (precRowWith_code, precRow_eq_superpose), is >= its strongest phase (superpose_ge_max, precRow_ge_max), <= the plain sum of the phases for exponents >= 1 (superpose_le_sum, precRow_le_sum), equals the phase for a one-phase host (superpose_singleton, precRow_one_phase) and is non-decreasing in every phase while the regime flags stay (superpose_mono_one, precRow_mono_same_flags); witnesses superposeWith_mismatch_below_strongest / precRowWith_mismatch_below_strongest for a root taken with another exponent than the sum. The host step postProcess = (record the row; update the coupled models; test the stopping conditions) inside the solver loop (machine solveCalls): for every stopping predicate and every sequence of solve calls updateCoupledModels ran at exactly the recorded host rows 1..n, the step that ends a run included (final_step_updates_coupled, updates_eq_rows), hence n + 1 strength entries (strength_history_with_stopping) and grain clock = sum of all host steps (grain_clock_with_stopping); a call on a host whose conditions are met is one recorded step (solveCall_stops); witness early_return_skips_final_update for a postProcess that tests first and returns early. The generated definitions and the models are tied to the code by differential correspondence on every run, the predicates are evaluated on the real functions and on a real coupled Al-Zr run.',
+    'level_text': 'Lean 4 theorems about (i) definitions REGENERATED on every run from Strength.py by a concolic tracer (mixed, edge and screw contribution formulas, Orowan, line tension) and (ii) hand models of the array logic of Strength.py and GrainGrowth.py: every clipped weak/strong/Orowan contribution is >= 0, the weak/strong sums, the combined precipitate strength, the multi-phase precipitate strength and the total strength are >= 0 (reals, rpow); precipitate strength = Taylor factor x min(weak, strong, Orowan) and 0 when a branch is non-finite (no precipitates); superposition (sum a_i^n)^(1/n) >= every a_j and non-decreasing in every a_i; the traced mixed-dislocation formulas reduce to the traced edge/screw formulas at 90/0 degrees (exact identities for modulus, APB-weak, SFE, interfacial; for the coherency and APB-strong formulas, whose published coefficients are rounded, the reduced form plus bounds on the coefficient ratio); Zener drag: sign in {0, sign g}, |cG| <= |g|, frozen when the drag >= max|g|; third moment = 1 after Normalize, mean size invariant under Normalize; transport with zero nucleation does not increase the number of grains (C07 budget + one-sided ends); one strength row per host step plus the initial row over any number of solve calls; grain-growth clock = host clock after every host step; the coupling list of a host as a state machine (attach = append, clear, host step = one updateCoupledModel call per list entry in list order): for every history of attach / clear / step operations every attached model is updated exactly once per host step since its attachment, at consecutive host indices (attached_updated_every_step), attaching keeps every attached model in place and does not change the update calls any other model receives (attach_mem, attach_prefix, attach_does_not_alter_others), cleared models are not updated, hence a StrengthModel attached at any time has (host steps since its attachment) + 1 rows (attached_history_length); witness: de-duplication by class detaches the first of two models of one class (dedup_detaches_first_of_same_class); histories WITH host.reset() (machine hrun: attach / clear / reset / step, host index rewound by reset, host steps counted over resets): reset keeps the coupling list (reset_keeps_attachments, attached_after_resets), a model attached once and not cleared by the user is updated exactly once at each host step after its attachment over any number of solve calls and resets (one_entry_per_step_over_histories, updates_count_over_histories), hence its strength history has steps + 1 entries (strength_history_over_histories) and the clock of an attached GrainGrowthModel is the sum of the host steps since its attachment (grain_clock_over_histories); witness reset_detaching_loses_updates for a reset that detaches; the grain-growth loaders and reset as operations (load = initial grid, raw distribution, Normalize, then backup; reset = restore backup, clock [0]; solve = any state): reset after anything after a load gives back exactly the loaded state (reset_restores_loaded), a loaded distribution and every later reset state have grain volume 1 (loaded_normalised, reset_normalised); witness backup_before_normalise_loses_volume / backupFirst_reset_restores_raw for a backup taken before Normalize. Round 5: the multi-phase row of precStrength has ONE exponent for the power sum and the root in each branch (precRowWith_code, precRow_eq_superpose), is >= its strongest phase (superpose_ge_max, precRow_ge_max), <= the plain sum of the phases for exponents >= 1 (superpose_le_sum, precRow_le_sum), equals the phase for a one-phase host (superpose_singleton, precRow_one_phase) and is non-decreasing in every phase while the regime flags stay (superpose_mono_one, precRow_mono_same_flags); witnesses superposeWith_mismatch_below_strongest / precRowWith_mismatch_below_strongest for a root taken with another exponent than the sum. The host step postProcess = (record the row; update the coupled models; test the stopping conditions) inside the solver loop (machine solveCalls): for every stopping predicate and every sequence of solve calls updateCoupledModels ran at exactly the recorded host rows 1..n, the step that ends a run included (final_step_updates_coupled, updates_eq_rows), hence n + 1 strength entries (strength_history_with_stopping) and grain clock = sum of all host steps (grain_clock_with_stopping); a call on a host whose conditions are met is one recorded step (solveCall_stops); witness early_return_skips_final_update for a postProcess that tests first and returns early. Round 6: computeZenerRadius as a fold over the phase list of the host (zenerDrag: the entry of a phase without precipitates stays 0): the drag is the sum of f^m/(K Ravg) over the phases WITH precipitates (zenerDrag_skips_empty), an empty phase at any position changes nothing (zenerDrag_insert_empty, zenerDrag_filter), the drag is invariant under permutation of the phases (zenerDrag_perm, zenerDrag_same_populated), is >= the term of every populated phase (zenerDrag_ge_term: other phases never cancel a pinning phase), hence a boundary whose driving force is below the drag of ONE pinning phase is frozen for every host configuration and phase order (zener_host_frozen, zener_host_frozen_perm); the early-exit variant equals the code on hosts whose phases all have precipitates (earlyExit_all_populated) and gives 0 as soon as one phase is empty (earlyExit_zero_of_empty); witnesses early_exit_drops_pinning_phase, early_exit_not_frozen ([pinning, empty] and [empty, pinning]), break_depends_on_order. The generated definitions and the models are tied to the code by differential correspondence on every run, the predicates are evaluated on the real functions and on a real coupled Al-Zr run.',
     'level_note': 'Monitored only (oracle, not proved): monotone mean grain size without pinning (needs third-moment conservation of the upwind scheme, only approximate); finiteness of IEEE results (the model treats np.isfinite as an arbitrary predicate; non-finite -> 0 is proved, that the real formulas are non-finite exactly for empty distributions is checked numerically); coherency-weak/strong and APB-strong edge/screw agreement is up to the rounding of the published coefficients (1e-5 / 1.5e-3 relative). The inner GrainGrowthModel.solve reaching exactly its end time is C05; here it is checked on the real run. Known finding gg-mean-size-dip-volume-drift: the mean grain size can dip by 1e-5..2e-4 relative in a step where grains leave through the last face of the grid (volume before Normalize < 1); the proved bound Rm_new^3 >= V_new * Rm_old^3 is checked by the oracle on every standalone step. Trusted: Lean kernel + Mathlib, axioms propext/Classical.choice/Quot.sound; the tracer tools/py2lean/sym.py (validated numerically on every run); hand models equal the NumPy code as far as this run compared them; exact-field arithmetic instead of IEEE doubles.',
     'technique': 'Lean 4 proof over generated definitions (py2lean) + hand models + differential correspondence + real coupled run',
     'design_ref': 'DESIGN.md section 6, C18',
@@ -66,12 +75,14 @@ ASSUMPTIONS = [
     'a coupling model OBJECT is attached at most once at a time (addCouplingModel is a plain append: the same object attached twice is updated twice per host step - modelled with multiplicity in updatesOf_run, not generated by the oracle); a model attached after n host steps starts its own history there: rows = steps since attachment + 1, clock = host time elapsed since attachment',
     'multi-phase superposition: exponents >= 1 for the upper bound by the plain sum (> 0 for everything else); the regime flag of a phase is what combineStrengthContributions reports (weak sum > strong sum and > Orowan), zeroed for a non-finite strength as precStrength does',
     'stopping conditions: any and/or combination, modelled as an arbitrary predicate of the host row; (K) uses the shipped conditions and one user condition that polls the host clock (subclass of PrecipitationStoppingCondition overriding _poll)',
+    'multi-phase Zener hosts: a phase has precipitates iff its recorded mean radius Ravg is > 0 (the guard of computeZenerRadius); np.power is an arbitrary function in the theorems (non-negative on the volume fractions for the bounds), K > 0; computeZenerRadiusByN (same loop, called by nothing in kawin) is not exercised',
     'theorems are over exact ordered-field / real arithmetic; IEEE doubles compared with rtol 1e-9',
 ]
 TRUSTED = ['tools/py2lean/sym.py concolic tracer and emitter (every generated def is re-validated numerically on each run)',
            'np.power / np.amin / boolean-mask assignment / np.append semantics as modelled in KawinV.Strength and KawinV.Grain (compared on every run)',
            'parts (H), (I): the per-step observer is a wrapper set on the host INSTANCE around host.postProcess (GenericModel.solve hands self.postProcess to the solver); it also ends a solve call after 1-4 accepted steps by raising from there, like the step cap of kwnruns.run; in (H) the raw distribution handed to the model is computed by the harness (np.histogram on the initial grid / the function on the initial class centres)',
            'part (J): precStrength is called with a stand-in host that carries only `phases` and with the history arrays rss / ls set directly (what updateCoupledModel records and save/load store); part (K): the per-step observer is the same instance-level wrapper around host.postProcess as in (I) (it records the stop flag postProcess returns and caps a call at 40-60 steps)',
+           'part (L): the scripted host is a subclass of the real GenericModel with a real PrecipitationData record (rows appended with appendToArrays, then the real updateCoupledModels); the rates of the inner solve are read by an instance-level wrapper around GrainGrowthModel.constrainedGrowth',
            'part (G): the stand-in host is a subclass of the real GenericModel (its coupling-list methods are the code under test) that carries only the attributes the coupling models read (phases, elements, PBM[p].PSD/PSDsize, pData.n/time/composition/Ravg/volFrac, setTimeInfo); the per-model call log comes from wrappers set on the model instances']
 
 GEN_FILE = os.path.join(vlib.LEAN, 'KawinV', 'Gen', 'C18Strength.lean')
@@ -1713,6 +1724,242 @@ def stophist_impl(a):
                 upd0=[n for g_, n, k in log if k == order[0]], late=late is not None and late in order, stops=list(allstops))
 
 
+# ------------------------------------------------------------------ (L) multi-phase Zener hosts
+_ZNAMES = ['ALPHA', 'BETA', 'GAMMA', 'DELTA']
+
+
+def zener_term(R, f, m, K):
+    """drag of one phase f^m / (K R), computed by the harness (math.pow, no NumPy); None = the phase has no precipitates"""
+    return None if not R > 0 else math.pow(f, m) / (K * R)
+
+
+def zener_expected(rows):
+    """the specification: sum over the phases WITH precipitates (Ravg > 0) of the per-phase term; rows = [(R, f, m, K)]"""
+    return math.fsum(t for t in (zener_term(*r) for r in rows) if t is not None)
+
+
+def empty_position(Rs):
+    """where the phases without precipitates sit in the host's phase list"""
+    P = len(Rs)
+    E = [k for k, R in enumerate(Rs) if not R > 0]
+    if not E:
+        return 'no-empty-phase'
+    if len(E) == P:
+        return 'all-phases-empty'
+    cls = []
+    for k in E:
+        c = 'first' if k == 0 else 'last' if k == P - 1 else 'middle'
+        if c not in cls:
+            cls.append(c)
+    return 'empty-' + '+'.join(cls)
+
+
+def make_zener_host(names, with_step=True):
+    """scripted host: subclass of the real GenericModel (coupling list = code under test) carrying the real
+    PrecipitationData record of a precipitation model (time, Ravg, volFrac, n)"""
+    vlib.use_repo()
+    from kawin.GenericModel import GenericModel
+    from kawin.precipitation.PrecipitationParameters import PrecipitationData
+
+    class ZHost(GenericModel):
+        def __init__(self):
+            super().__init__()
+            self.phases = np.array(names)
+            self.elements = ['X']
+            self.pData = PrecipitationData(self.phases, self.elements)
+
+        def setRow(self, R, f):
+            """overwrite the current row (formula-level calls of computeZenerRadius)"""
+            self.pData.Ravg[self.pData.n] = R
+            self.pData.volFrac[self.pData.n] = f
+
+        def hostStep(self, dt, R, f):
+            row = PrecipitationData(self.phases, self.elements, N=1)
+            row.time[0] = self.pData.time[self.pData.n] + dt
+            row.Ravg[0] = R
+            row.volFrac[0] = f
+            self.pData.appendToArrays(row)
+            self.updateCoupledModels()
+    return ZHost()
+
+
+def zener_params(g, names, mk):
+    """Zener parameters the way the user sets them: mk = {'all': (m, K) or None, name: (m, K)}"""
+    for nm, v in mk.items():
+        if v is not None:
+            g.setZenerParameters(v[0], v[1], nm) if nm != 'all' else g.setZenerParameters(v[0], v[1])
+
+
+def zener_mk(mk, nm):
+    return mk[nm] if mk.get(nm) is not None else (mk['all'] if mk.get('all') is not None else (1, 4 / 3))
+
+
+def zener_row(rng, P, gmax, level, nempty, mkl):
+    """one host row: `nempty` phases without precipitates (Ravg = 0, volume fraction 0), the others pin with a total drag
+    `level` x the largest driving force, split at random over the populated phases; a populated phase can have volume
+    fraction 0 (term 0).  mkl = [(m, K)] per phase.  Returns (R, f)"""
+    idx = list(range(P)); rng.shuffle(idx)
+    empty = set(idx[:nempty])
+    pop = [k for k in range(P) if k not in empty]
+    w = [rng.uniform(0.05, 1) for _ in pop]
+    R, f = [0.0] * P, [0.0] * P
+    zero_f = rng.random() < 0.12 and len(pop) >= 2
+    for j, k in enumerate(pop):
+        zk = level * gmax * w[j] / sum(w)
+        m, K = mkl[k]
+        if zero_f and j == 0:
+            R[k], f[k] = 10 ** rng.uniform(-9, -7.5), 0.0
+            continue
+        Rk = 10 ** rng.uniform(-9, -7.7)          # radius first, volume fraction from the wanted drag (kept below 0.4)
+        while math.pow(zk * K * Rk, 1 / m) > 0.4:
+            Rk /= 2
+        R[k], f[k] = Rk, math.pow(zk * K * Rk, 1 / m)
+    return R, f
+
+
+def zhost_impl(a):
+    """(L) one multi-phase Zener host, determined by a['s'] (a['n'] = number of formula-level rows):
+    (1) formula level: computeZenerRadius on rows with 0..P empty phases, every phase order (the phase-specific m, K follow
+        the phase names);
+    (2) host level: a real GrainGrowthModel attached with addCouplingModel, 1-3 host steps through updateCoupledModels,
+        every constrainedGrowth call of the inner solve recorded (drag handed over, unconstrained and constrained rates)."""
+    import random, itertools
+    rng = random.Random(a['s'])
+    out = []
+
+    def fail(key, what, obs=None, req=None):
+        if key not in [o[0] for o in out]:
+            out.append((key, what, obs, req))
+    P = rng.choice([1, 2, 2, 2, 3, 3, 4])
+    names = list(_ZNAMES); rng.shuffle(names); names = names[:P]
+    mk = {'all': rng.choice([None, None, (rng.choice([1, 0.5, 2]), rng.uniform(0.5, 3))])}
+    for nm in names:
+        mk[nm] = (rng.choice([1, 1, 0.5, 2, rng.uniform(0.5, 2)]), rng.choice([4 / 3, rng.uniform(0.5, 3)])) if rng.random() < 0.4 else None
+    mkl = [zener_mk(mk, nm) for nm in names]
+    cMin = 10 ** rng.uniform(-7.5, -6.5)
+    ga = dict(cMin=cMin, cMax=cMin * 100, bins=rng.choice([30, 40, 60]), gbe=rng.uniform(0.2, 1.0), M=10 ** rng.uniform(-15, -13),
+              alpha=rng.choice([1.0, rng.uniform(0.5, 2)]))
+    ga['minBins'] = ga['bins'] // 2 + 5; ga['maxBins'] = ga['bins'] * 2
+    g = make_gg(ga)
+    zener_params(g, names, mk)
+    center = cMin * 10 ** rng.uniform(0.9, 1.5); width = rng.uniform(0.15, 0.35)
+    g.LoadDistributionFunction(lambda R: np.exp(-0.5 * ((np.log(R) - math.log(center)) / width) ** 2) / R)
+    amg = ga['alpha'] * ga['M'] * ga['gbe']
+    gr0 = np.asarray(g.grainGrowth(g.pbm.PSD), dtype=float)
+    gmax = float(np.max(np.abs(gr0))) / amg          # largest driving force |1/Rcr - 1/R| over all class boundaries, 1/m
+    info = dict(P=P, names=names, mk={k: v for k, v in mk.items() if v is not None}, gmax=gmax, rows=[], steps=[], lines=[])
+
+    # ---- (1) formula level
+    def drag_of(order, R, f):
+        h = make_zener_host([names[k] for k in order])
+        h.setRow([R[k] for k in order], [f[k] for k in order])
+        g._z = -1.0
+        g.computeZenerRadius(h)
+        return float(g._z)
+    perms = list(itertools.permutations(range(P)))
+    for it in range(a.get('n', 4)):
+        level = {'below': rng.uniform(0.05, 0.8), 'around': rng.uniform(0.97, 1.03), 'above': rng.uniform(1.2, 5)}[rng.choice(['below', 'around', 'above', 'above'])]
+        nempty = rng.choice([0, 1, 1, 1, 2, P]) if P > 1 else rng.choice([0, 0, 1])
+        R, f = zener_row(rng, P, gmax, level, min(nempty, P), mkl)
+        zs = {}
+        for order in perms:
+            Ro = [R[k] for k in order]
+            want = zener_expected([(R[k], f[k]) + tuple(mkl[k]) for k in order])
+            z = drag_of(order, R, f)
+            zs[order] = z
+            pos = empty_position(Ro)
+            row = {'phases': [names[k] for k in order], 'Ravg': Ro, 'volFrac': [f[k] for k in order], 'm,K': [list(mkl[k]) for k in order],
+                   'per-phase drag': [zener_term(R[k], f[k], *mkl[k]) for k in order], 'largest driving force': gmax}
+            if not (math.isfinite(z) and close(z, want, 1e-12)):
+                fail('zener-drag-not-sum-over-populated-phases:' + pos,
+                     'computeZenerRadius: the drag is not the sum of the per-phase terms f^m/(K Ravg) over the phases with precipitates (%s)' % pos, dict(row, z=z), want)
+        ref = zs[perms[0]]
+        for order in perms[1:]:
+            if not close(zs[order], ref, 1e-12):
+                fail('zener-depends-on-phase-order', 'computeZenerRadius gives another drag for the same phases in another order',
+                     {'phases': names, 'Ravg': R, 'volFrac': f, 'order': list(order), 'z': zs[order]}, ref)
+                break
+        info['rows'].append((empty_position(R), level))
+        ident = perms[0]
+        info['lines'].append(('c18.zener 0 %d %s %s %s %s %s' % (P, ' '.join('%s %s %s %s' % (f2b(R[k]), f2b(f[k]), f2b(float(mkl[k][0])), f2b(mkl[k][1])) for k in ident),
+                                                          f2b(gmax * amg), f2b(ga['alpha']), f2b(ga['M']), f2b(ga['gbe'])),
+                              dict(phases=names, Ravg=R, volFrac=f, mK=[list(x) for x in mkl]), zs[ident]))
+
+    # ---- (2) host level: the real coupling interface
+    host = make_zener_host(names)
+    calls = []
+    orig = g.constrainedGrowth
+
+    def cgrowth(growthRate, z=0):
+        cG = orig(growthRate, z)
+        calls.append((np.array(growthRate, dtype=float), float(z), np.array(cG, dtype=float)))
+        return cG
+    g.constrainedGrowth = cgrowth
+    host.addCouplingModel(g)
+    Rtyp = center
+    nsteps = a.get('steps', rng.randint(1, 3))
+    for st in range(nsteps):
+        kind = rng.choice(['below', 'around', 'above', 'above', 'above'])
+        level = {'below': rng.uniform(0.05, 0.8), 'around': rng.uniform(0.97, 1.03), 'above': rng.uniform(1.2, 5)}[kind]
+        gnow = float(np.max(np.abs(np.asarray(g.grainGrowth(g.pbm.PSD), dtype=float)))) / amg
+        nempty = rng.choice([0, 1, 1, 1, 2]) if P > 1 else rng.choice([0, 0, 1])
+        R, f = zener_row(rng, P, gnow, level, min(nempty, P), mkl)
+        want = zener_expected([(R[k], f[k]) + tuple(mkl[k]) for k in range(P)])
+        pos = empty_position(R)
+        dt = rng.uniform(0.02, 0.15) * Rtyp ** 2 / (ga['M'] * ga['gbe'])
+        psd0, b0, avg0, t0 = np.array(g.pbm.PSD), np.array(g.pbm.PSDbounds), float(g.avgR[-1]), float(g.time[-1])
+        del calls[:]
+        host.hostStep(dt, R, f)
+        row = {'host step': st + 1, 'phases': names, 'Ravg': R, 'volFrac': f, 'm,K': [list(x) for x in mkl],
+               'per-phase drag': [zener_term(R[k], f[k], *mkl[k]) for k in range(P)], 'largest driving force': gnow, 'drag level': kind}
+        info['steps'].append((pos, kind, len(calls)))
+        if not close(float(g.time[-1]), t0 + dt, 1e-9):
+            fail('grain-clock-misaligned:zener-host', 'grain-growth clock after a host step of a multi-phase host', float(g.time[-1]), t0 + dt)
+        if not close(float(g.pbm.ThirdMoment()), 1.0, 1e-9):
+            fail('coupled-grain-volume:zener-host', 'grain volume after a host step of a multi-phase host', float(g.pbm.ThirdMoment()), 1.0)
+        if not (math.isfinite(float(g._z)) and close(float(g._z), want, 1e-12)):
+            fail('zener-drag-not-sum-over-populated-phases:' + pos,
+                 'updateCoupledModel: the drag used for the host step is not the sum of the per-phase terms over the phases with precipitates (%s)' % pos,
+                 dict(row, z=float(g._z)), want)
+        moved = None
+        for gr, z, cG in calls:
+            if not close(z, want, 1e-12):
+                fail('zener-drag-not-sum-over-populated-phases:' + pos,
+                     'the drag handed to constrainedGrowth during the host step is not the sum over the phases with precipitates (%s)' % pos, dict(row, z=z), want)
+            d = amg * want
+            bad = np.nonzero((cG != 0) & (np.sign(cG) != np.sign(gr)))[0]
+            if len(bad):
+                fail('zener-reverses', 'a boundary moves against its unconstrained direction during a coupled host step', dict(row, g=float(gr[bad[0]]), cG=float(cG[bad[0]])), 'sign in {0, sign g}')
+            if np.any(np.abs(cG) > np.abs(gr)):
+                fail('zener-accelerates', 'a boundary is faster than unconstrained during a coupled host step', dict(row), '|cG| <= |g|')
+            # independent evaluation of the pinned rate with the drag of the populated phases
+            exp = np.where(gr - d > 0, gr - d, np.where(gr + d < 0, gr + d, 0.0))
+            near = np.abs(np.abs(gr) - d) <= 1e-9 * np.abs(gr)
+            if len(gr) and d >= float(np.max(np.abs(gr))) * (1 + 1e-9) and np.any(cG != 0):
+                j = int(np.argmax(np.abs(cG)))
+                moved = dict(row, z_used=z, drag=want, boundary=j, unconstrained=float(gr[j]) / amg, rate=float(cG[j]))
+                fail('zener-not-frozen', 'the drag of the pinning phases (%.3e 1/m) exceeds the largest driving force (%.3e 1/m) but a boundary still moves (%s)'
+                     % (want, float(np.max(np.abs(gr))) / amg, pos), moved, 'all rates zero')
+            elif not np.all(near | (np.abs(cG - exp) <= 1e-9 * np.abs(gr))):
+                j = int(np.argmax(np.where(near, 0, np.abs(cG - exp))))
+                fail('zener-pinned-rate:' + pos, 'the pinned rate of a boundary is not g -/+ alpha M gbe z with the drag of the phases with precipitates',
+                     dict(row, z_used=z, boundary=j, g=float(gr[j]), rate=float(cG[j])), float(exp[j]))
+        if kind == 'above' and want > gnow * (1 + 1e-6):
+            n0 = len(psd0)
+            psd, b = np.array(g.pbm.PSD), np.array(g.pbm.PSDbounds)
+            frozen = (len(psd) >= n0 and np.allclose(b[:n0 + 1], b0, rtol=1e-12, atol=0) and
+                      np.allclose(psd[:n0], psd0, rtol=1e-9, atol=1e-12 * float(np.max(psd0))) and np.all(psd[n0:] == 0))
+            if not frozen or not close(float(g.avgR[-1]), avg0, 1e-9):
+                fail('zener-not-frozen', 'the drag of the pinning phases (%.3e 1/m) exceeds the largest driving force (%.3e 1/m) but the grain structure changed over the host step (%s)'
+                     % (want, gnow, pos), dict(row, z_used=float(g._z), avgR=[avg0, float(g.avgR[-1])]), 'distribution and mean size unchanged')
+    info['out'] = out
+    return info
+
+
+def chk_zhost(a):
+    return zhost_impl(a)['out']
+
+
 def chk_stophist(a):
     return stophist_impl(a)['out']
 
@@ -1739,7 +1986,7 @@ CHECKS = {'strength': chk_strength, 'limits': chk_limits, 'zener': chk_zener, 'n
           'ggrun': lambda a: chk_ggrun(a)[0], 'gen': lambda v: (gen_impl(v), [])[1], 'contrib': lambda a: (contrib_impl(a), [])[1],
           'hist': lambda a: chk_hist(a)[0], 'ggcalls': lambda a: (gg_impl(a), [])[1], 'ggcase': lambda a: (gg_case(a), [])[1],
           'coupled': chk_coupled, 'couple': chk_couple, 'gghist': chk_gghist, 'hhist': chk_hhist,
-          'super': chk_super, 'stophist': chk_stophist}
+          'super': chk_super, 'stophist': chk_stophist, 'zhost': chk_zhost}
 
 
 def apply_check(res, kind, args):
@@ -2012,6 +2259,7 @@ def corr(ctx, oracle_only=False, scale=1, skip_run=False):
                 '(I) host histories: 6-11+ operations from addCouplingModel / clearCouplingModels / host.reset() (sometimes followed by setPBMParameters) / reset() of a coupled GrainGrowthModel / host.solve (1-4 accepted steps per call on the Al-Zr PrecipitateModel, up to the natural end on the GrainGrowthModel host), at least two solve calls and one host reset, random order; 2-4 models (StrengthModel, GrainGrowthModel loaded from data or function, recorders); non-trivial = at least one host step with a model attached BEFORE a host.reset(). '
                 '(J) multi-phase superposition: 1-4 phases x global / phase-specific mechanisms (at least one per phase) x default exponents (1.8 / 1.4) or random ones in [1, 3] x 4-9 rows, each row a pattern of per-phase regimes (mixed = at least one fine (0.3-2.5 nm) and one coarse (10-200 nm) phase, mixed with an absent phase, all fine, all coarse, one phase present, any incl. sub-core), spacing from a volume fraction 10^-3.5..10^-1.5; non-trivial = a row in the mixed-regime branch (flags as reported by the implementation). '
                 '(K) stop histories on an Al-Zr PrecipitateModel (30 size classes, 823 K) with 2-3 coupling models (StrengthModel, GrainGrowthModel, recorder; one sometimes attached between the calls) and 1-2 stopping conditions with thresholds the run crosses within ~35 steps (density, volume fraction, nucleation rate, mean radius, host clock; or / two in and mode): [short call ended by time] + long call (ended by the condition) + 1-3 further calls + sometimes clearStoppingConditions and a call ended by time; non-trivial = a call ended by a condition followed by at least one more call. '
+                '(L) multi-phase Zener hosts: 1-4 phases (names shuffled) x global / phase-specific (m, K) x 4 formula-level rows (0, 1, 2 or all phases empty; total drag 0.05-0.8 / 0.97-1.03 / 1.2-5 x the largest driving force split at random over the populated phases, radius 1-20 nm, sometimes a populated phase with volume fraction 0) evaluated in EVERY phase order + 1-3 host steps of a real GrainGrowthModel (30-60 classes, log-normal) with a new row per step; non-trivial = a host of >= 2 phases with a step in which a phase is empty while the others pin above the largest driving force. '
                 'non-trivial = at least one enabled contribution and one entry with precipitates (B,C) / populated distribution (D,E); distinct = full case tuple. '
                 'Every case runs in its own guard: an exception raised by the code under test is a violation raises:<call site>:<type> with the case, the run goes on')
     res.monitored = list(MONITORED)
@@ -2227,6 +2475,26 @@ def corr(ctx, oracle_only=False, scale=1, skip_run=False):
             take([('c18.stopstep 0 %s %d %s' % (vlib.enc_ilist(h['fuels']), len(h['stops']), ' '.join(vlib.enc_bool(b) for b in h['stops'])),
                    ('stopstep', {'part': 'K', **a, 'conditions': h['conds'], 'calls': h['calls']}, h['n'], h['upd0'], h['ends']))])
 
+    # ---------------- (L) multi-phase Zener hosts: drag = sum over the phases with precipitates, any phase order, freezing
+    for it in range(ctx.n(36, 1500) * scale):
+        a = {'s': rng.getrandbits(48), 'n': 4}
+        case = {'chk': 'zhost', 'args': a}
+        ok, h = vlib.guarded(res, 'zener-host', case, zhost_impl, a)
+        if not ok:
+            continue
+        for key, what, obs, req in h['out'][:5]:
+            res.violate(key, what, case, obs, req)
+        res.case(('L', a['s']), h['P'] >= 2 and any(pos.startswith('empty-') and kind == 'above' for pos, kind, _ in h['steps']))
+        res.count('L:hosts'); res.count('L:phases=%d' % h['P']); res.count('L:phase-specific-zener-parameters', int(len(h['mk']) > ('all' in h['mk'])))
+        for pos, level in h['rows']:
+            res.count('L:row:' + pos)
+        for pos, kind, ncalls in h['steps']:
+            res.count('L:host-step:%s:drag-%s' % (pos, kind)); res.count('L:inner-steps', ncalls)
+        if len([x for x in res.samples if x.get('part') == 'L']) < 1 and h['P'] >= 2:
+            res.sample({'part': 'L', **a, 'phases': h['names'], 'zener_parameters': h['mk'], 'steps': h['steps']}, cap=16)
+        if use_model and not h['out']:
+            take([(ln, ('zener', {'part': 'L', **a, **c}, z)) for ln, c, z in h['lines']])
+
     # ---------------- (E) grain growth
     for _ in range(ctx.n(400, 30000) * scale):
         cMin = 10 ** rng.uniform(-8, -6)
@@ -2408,6 +2676,11 @@ def compare(res, verb, t, aft):
             if not close(tl, mt, 1e-12) or not close(v, mv, 1e-9):
                 res.disagree('clock / grain volume after operation %d of the grain-growth history' % (i + 1), c2, [tl, v], [mt, mv]); return
         res.traces += 1
+    elif kind == 'zener':
+        z = aft[2]
+        mz, mspec, mfrozen = t.flt(), t.flt(), t.bool()
+        if not close(z, mz, 1e-12) or not close(mz, mspec, 1e-12):
+            res.disagree('Zener drag of a multi-phase host row (computeZenerRadius vs zenerDrag; zenerDrag vs the sum over the populated phases)', case, z, [mz, mspec])
     elif kind == 'rssls':
         mr, ml = t.flt(), t.flt()
         if not close(aft[2], mr, 1e-9) or not close(aft[3], ml, 1e-6, 1e-12):
